@@ -21,7 +21,7 @@ F_CREATES = "D_C26_ErrorCreatesSwamp"
 F_ZERO = "D_C26_TruncatedToZeroLostOnReload"
 
 BUILTIN_PAIRS = [dict(rpc="GetLike", shape="name_one", kind="panic_ok"), dict(rpc="BulkLike", shape="name_two", kind="dead"),
-                 dict(rpc="RegisterLike", shape="max_ints", kind="dead"),
+                 dict(rpc="RegisterLike", shape="max_ints", kind="dead"), dict(rpc="StreamLike", shape="neg_from", kind="wedge"),
                  dict(rpc="NoName", shape="valid", kind="creates")]
 
 
@@ -46,6 +46,9 @@ def judge(case, res, known):
             out.append((None, "%s: outcome %s is not one of %s" % (tag, o, case["allowed"])))
     if o == "dead":
         return out
+    if res.get("wedged"):
+        # whatever the outcome of the case itself (also a listed finding): the swamp it addressed must stay usable
+        out.append((None, "%s (outcome %s): afterwards the swamp no longer serves ordinary requests: %s" % (tag, o, res["wedged"][:500])))
     if res.get("locked"):
         out.append((None, "%s: the safeops system lock is still held after the reply" % tag))
     if res.get("vigil"):
@@ -179,6 +182,7 @@ def run(ctx):
             ctx.deviation(fid, what, dict(kind="case", rpc=c["rpc"], shape=c["shape"], pre=c["pre"], allowed=c["allowed"], result=res))
     ctx.extra["outcomes"] = counts
     ctx.extra["solo_stop_reload_checks"] = sum(1 for x in results if x.get("solo"))
+    ctx.extra["health_probes_after_case"] = sum(1 for x in results if x["outcome"] in ("error", "answer", "panic_ok"))
     for want in ("error", "answer"):
         if not counts.get(want):
             raise vlib.Inconclusive("no case ended with outcome %r: the driver does not discriminate" % want)
